@@ -736,56 +736,15 @@ def check_call_styles(project: Project, rep):
 
 
 def check_lazy_operands(project: Project, rep):
-    """AR-LAZYREAD: an arithmetic operator of either landscape class reads the lazily computed data (self.values /
-    self.critical_pairs, and the other operand's) only behind a call that always computes it: a landscape built with
-    compute=False is a legitimate operand"""
-    from ..core.cfg import CFG
-    from .c10 import _compute_gates
+    """AR-LAZYREAD: an arithmetic operator of either landscape class reads the lazily computed data (whatever
+    compute_landscape stores: self.values / self.critical_pairs / self.max_depth, and the other operand's) only behind a call
+    that always computes it: a landscape built with compute=False is a legitimate operand (rule text: lazy_rule)"""
+    from . import lazy_rule
+    lazy_rule.positive_examples()
     ops = ("__add__", "__sub__", "__neg__", "__mul__", "__rmul__", "__truediv__")
-    for kind, cq, attr in (("exact", "persim.landscapes.exact.PersLandscapeExact", "critical_pairs"),
-                           ("grid", "persim.landscapes.approximate.PersLandscapeApprox", "values")):
-        cls = project.classes.get(cq)
-        if cls is None:
-            continue
-        for mname in ops:
-            m = cls.methods.get(mname)
-            if m is None:
-                continue
-            cfg = CFG(m.node)
-            memo = {}
-            gates = _compute_gates(project, m, cls, cfg, memo)
-            # the other operand: <param>.compute_landscape() gates reads of <param>.<attr>
-            params = [p_ for p_ in m.params[1:2]]
-            other_gates = {}
-            for p_ in params:
-                other_gates[p_] = {nd.id for nd in cfg.nodes if nd.ast is not None and nd.kind in ("stmt", "return", "test") and any(
-                    isinstance(c, ast.Call) and isinstance(c.func, ast.Attribute) and c.func.attr == "compute_landscape"
-                    and isinstance(c.func.value, ast.Name) and c.func.value.id == p_ for c in ast.walk(nd.ast))}
-            bad = None
-            n_reads = 0
-            for nd in cfg.nodes:
-                a = nd.ast
-                if a is None or nd.kind not in ("stmt", "return", "test", "for"):
-                    continue
-                roots = [a.test] if nd.kind == "test" and hasattr(a, "test") else ([a.iter] if nd.kind == "for" else [a])
-                for r in roots:
-                    for x in ast.walk(r):
-                        if isinstance(x, ast.Attribute) and x.attr == attr and isinstance(x.value, ast.Name) \
-                                and isinstance(x.ctx, ast.Load) and x.value.id in ["self"] + params:
-                            n_reads += 1
-                            g = gates if x.value.id == "self" else other_gates[x.value.id]
-                            if nd.id not in g and not cfg.must_pass_through(cfg.entry.id, nd.id, g):
-                                bad = bad or (nd, x)
-            if bad:
-                nd, x = bad
-                rep.refuted("AR-LAZYREAD", m, nd.ast,
-                            f"{kind}.{mname} reads `{ast.unparse(x)}` without computing that landscape first: an operand built with "
-                            f"compute=False has no {attr} yet, so the operation raises (or combines empty data) instead of giving "
-                            f"the pointwise result",
-                            construct=f"{m.qualname}: read of {ast.unparse(x)} before compute_landscape")
-            elif n_reads:
-                rep.discharged("AR-LAZYREAD", m, m.node, f"{kind}.{mname}: every read of the lazily computed data lies behind its "
-                                                         f"computation")
+    for cq in (lazy_rule.EXACT, lazy_rule.APPROX):
+        lazy_rule.check_class(project, rep, cq, "AR-LAZYREAD", methods=ops, others_for=ops,
+                              why=", so the operation raises (or combines empty data) instead of giving the pointwise result")
 
 
 def run(project: Project, rep, tier: str):
@@ -849,7 +808,7 @@ def run(project: Project, rep, tier: str):
         rep.discharged("AR-RETVAL", None, None, f"{len(chain)} operator / tool functions: none uses the value of a call that can "
                                                 f"return nothing", nontrivial=False)
     rep.floor("AR-STYLE", 2)
-    for rn, n in (("AR-EFFECT", 30), ("AR-OWN", 30), ("AR-LAZY", 4), ("AR-GUARD", 9), ("AR-UNARY", 11), ("AR-PAD", 4), ("AR-SNAP", 2), ("AR-LC", 1), ("AR-MERGE", 1), ("AR-DTYPE", 1)):
+    for rn, n in (("AR-EFFECT", 30), ("AR-OWN", 30), ("AR-LAZY", 4), ("AR-LAZYREAD", 12), ("AR-GUARD", 9), ("AR-UNARY", 11), ("AR-PAD", 4), ("AR-SNAP", 2), ("AR-LC", 1), ("AR-MERGE", 1), ("AR-DTYPE", 1)):
         rep.floor(rn, n)
     for t in ("numpy.pad", "numpy.interp", "itertools.zip_longest"):
         rep.trust(t)
